@@ -259,7 +259,8 @@ func (r *Report) Finish() int {
 		fmt.Printf("  ... and %d more distinct violation signatures (all in the evidence file)\n", len(r.unkOrder)-40)
 	}
 	distinct := len(r.Cells)
-	conclusive := r.Counts["held"] + r.Counts["violated"]
+	// rejected cases are conclusive too: the oracle established that the (conditional) property's premise is false
+	conclusive := r.Counts["held"] + r.Counts["violated"] + r.Counts["rejected"]
 	cov := map[string]any{
 		"evaluations":         r.Evals,
 		"distinct_nontrivial": distinct,
